@@ -60,8 +60,9 @@ def _job(args):
             rec = {'name': ob.name, 'tier': ob.tier, 'kind': ob.kind, 'where': ob.where, 'status': ob.status,
                    'time': round(ob.time, 4), 'backend': 'cvc5' if ob.note == 'cvc5' else 'z3', 'pc_size': len(ob.pc),
                    'goal': str(z3.simplify(ob.goal))[:300]}
-            if ob.status == 'sat':
+            if ob.status in ('sat', 'sat?'):
                 rec['model'] = ob.model
+                rec['native'] = ob.native
             if ob.status == 'unknown':
                 rec['reason'] = ob.note
             if want_smt2 and ob.status == 'unsat' and ob.kind != 'lemma-app':
